@@ -135,6 +135,44 @@ fn hmat_real(f: &Fill, ni: usize, nt: usize, ops: &[HOp]) -> Result<(Vec<u8>, Ve
         (img, ser(&t))
     })
 }
+/// same as hmat_real / hmat_model, with the shape in the shape bits (leaves all three overrides of `f` to the caller)
+fn hmat_real_f(f: &Fill, ni: usize, nt: usize, ops: &[HOp]) -> Result<(Vec<u8>, Vec<u8>), String> {
+    catch(|| {
+        let mut s = real_sll_new(f, sll_shape(ni, nt, 0));
+        for o in ops {
+            match o {
+                HOp::Cell(i, j, v) => s.set_entry_value(*i as usize, *j as usize, *v),
+                HOp::Init(i, v) => s.set_initiator_value(*i as usize, *v),
+                HOp::Tgt(j, v) => s.set_target_value(*j as usize, *v),
+                HOp::NonSeq => s.non_sequential_transfers(),
+                HOp::MinXfer => s.minimum_transfer_size_required(),
+            }
+        }
+        let img = ser(&s);
+        let c = Ctor::new(2, 0, 2);
+        let mut t = hmat::HMAT::new(c.oem_id(), c.oem_table_id(), c.oem_rev());
+        t.add_system_locality(s);
+        (img, ser(&t))
+    })
+}
+fn hmat_model_f(f: &Fill, ni: usize, nt: usize, ops: &[HOp]) -> Vec<u8> {
+    let mut cells = vec![0xffffu16; ni * nt];
+    let mut inits = vec![0u32; ni];
+    let mut tgts = vec![0u32; nt];
+    let mut opts = 0u16;
+    for o in ops {
+        match o {
+            HOp::Cell(i, j, v) => cells[*i as usize * nt + *j as usize] = *v,
+            HOp::Init(i, v) => inits[*i as usize] = *v,
+            HOp::Tgt(j, v) => tgts[*j as usize] = *v,
+            HOp::NonSeq => opts |= 1,
+            HOp::MinXfer => opts |= 2,
+        }
+    }
+    let mut w = W::new();
+    ref_sll_with(&mut w, f, sll_shape(ni, nt, opts), &inits, &tgts, &cells);
+    w.0
+}
 /// reference: row-major cell (i, j) with stride = number of targets, default 0xFFFF; lists default 0
 fn hmat_model(f: &Fill, ni: usize, nt: usize, ops: &[HOp]) -> Vec<u8> {
     let mut cells = vec![0xffffu16; ni * nt];
@@ -286,6 +324,52 @@ pub fn run(ctx: &'static Ctx) {
         }
     }
     ctx.engine("E1.hmat-closures", json!(hm));
+
+    // ---- constructor arguments x untouched cells (E3): every locality type x data type x minimum transfer size on a 2x3
+    // structure with (a) no cell assigned, (b) one cell assigned, (c) all but one assigned: a cell never assigned holds
+    // 0xFFFF whatever the structure describes
+    {
+        let mut n = 0u64;
+        for lt in 0..4u64 {
+            for dt in 0..6u64 {
+                for mt in 0..12u64 {
+                    let f = Fill::b(2).with(0, lt).with(1, dt).with(2, mt);
+                    let progs: Vec<Vec<HOp>> = vec![
+                        vec![],
+                        vec![HOp::Cell(1, 2, 0x1234)],
+                        vec![HOp::Cell(0, 0, 1), HOp::Cell(0, 1, 2), HOp::Cell(0, 2, 3), HOp::Cell(1, 0, 4), HOp::Cell(1, 1, 5)],
+                        vec![HOp::Init(0, 7), HOp::Tgt(2, 9), HOp::NonSeq],
+                    ];
+                    for ops in progs {
+                        n += 1;
+                        ctx.tr(1);
+                        // hmat_real/hmat_model add the size overrides themselves: only one override slot is left, so the
+                        // shape travels in the fill's size fields and the enum arguments in the three overrides above
+                        let want = hmat_model_f(&f, 2, 3, &ops);
+                        match hmat_real_f(&f, 2, 3, &ops) {
+                            Ok((img, table)) => {
+                                ctx.distinct(crate::util::fnv(&img));
+                                if img != want || sum8(&table) != 0 {
+                                    let d = crate::util::first_diff(&img, &want).unwrap_or(0);
+                                    ctx.violation_sized(
+                                        "hmat:cell:constructor-arguments",
+                                        ops.len() as u64,
+                                        || format!("HMAT locality 2x3 (locality type {}, data type {}, min transfer {}) after {:?}: differs from the last-writer reference at byte {}: {} | {}", lt, dt, mt, ops, d, hex(&img[d.min(img.len())..(d + 8).min(img.len())]), hex(&want[d.min(want.len())..(d + 8).min(want.len())])),
+                                        || json!({"family":"hmat-sll-args","locality_type":lt,"data_type":dt,"min_transfer":mt,"ops":format!("{:?}", ops)}),
+                                    );
+                                }
+                            }
+                            Err(m) => {
+                                ctx.violation_sized("hmat:refused:constructor-arguments", ops.len() as u64, || format!("HMAT locality 2x3 (type {}, data {}, transfer {}) refused {:?}: {}", lt, dt, mt, ops, m), || json!({"family":"hmat-sll-args","locality_type":lt,"data_type":dt,"min_transfer":mt}));
+                            }
+                        }
+                    }
+                }
+            }
+        }
+        ctx.st(n);
+        ctx.engine("E3.hmat-constructor-arguments", json!({"programs": n, "what": "4 locality types x 6 data types x 12 transfer sizes x {untouched, one cell, all but one cell, lists+option} on a 2x3 structure"}));
+    }
 
     // ---- shape sweeps (E3): every shape of a grid, one program each: every cell assigned a distinct value in
     // row-major, column-major or reverse order, then three cells overwritten; the whole matrix is compared after the
